@@ -28,7 +28,7 @@ ASSUMPTIONS = ['threads interleave at activation boundaries only (the GIL may pr
                'usim keeps no cross-thread state other than the thread-local loop handle, which '
                'is what the family attacks)']
 
-SUCCESS, RAISES, RETURNS, NESTED, WAITERS = range(5)
+SUCCESS, RAISES, RETURNS, NESTED, WAITERS, TILL = range(6)
 
 
 def sees_no_simulation():
@@ -80,6 +80,21 @@ def one_run(E, k, kind, real=False):
 
     E.prove(sees_no_simulation(), 'no-simulation-visible-before-run')
     probe = Probe()
+    if kind == TILL:
+        # run(till=T), T >= start: ends when till is reached, nothing runs later than T
+        T = start + E.num('dT%d' % k, 0, 25, real=real)
+        out = simulate(root0(), root1(), start=start, till=T, log=log, probe=probe)
+        E.prove(sees_no_simulation(), 'no-simulation-visible-after-run')
+        E.prove(out.exc is None, 'run-ends-normally', out.exc)
+        E.reach('till')
+        for ev in log.events:
+            E.prove(LE(ev[2], T), 'till-reached-ends-the-run',
+                    ('%r at %r although till was %r', ev[:2], ev[2], T))
+        for (_, t, _, _, _) in probe.activations:
+            E.prove(LE(t, T), 'till-reached-ends-the-run', ('activation at %r, till %r', t, T))
+        if GT(T, start + d[1] + 1):
+            E.prove(log.has(1, 'end'), 'every-activity-ran-to-its-end')
+        return
     out = simulate(root0(), root1(), start=start, log=log, probe=probe)
     E.prove(sees_no_simulation(), 'no-simulation-visible-after-run',
             ('after a run of kind %d that ended with %r', kind, out.exc))
@@ -254,9 +269,9 @@ def fam_threads(E, real=False, max_switches=10):
 
 FAMILIES = [
     Family('sequence', fam_sequence,
-           quick=dict(nruns=2, kinds=[SUCCESS, RAISES, RETURNS, NESTED, WAITERS]),
-           thorough=dict(nruns=3, kinds=[SUCCESS, RAISES, RETURNS, NESTED, WAITERS]),
-           reach=['raises', 'returns-value', 'nested', 'quiescent-with-waiters'],
+           quick=dict(nruns=2, kinds=[SUCCESS, RAISES, RETURNS, NESTED, WAITERS, TILL]),
+           thorough=dict(nruns=3, kinds=[SUCCESS, RAISES, RETURNS, NESTED, WAITERS, TILL]),
+           reach=['raises', 'returns-value', 'nested', 'quiescent-with-waiters', 'till'],
            bounds='2 (thorough 3) runs in sequence'),
     Family('sequence_real', fam_sequence,
            thorough=dict(nruns=2, kinds=[SUCCESS, RAISES, NESTED], real=True),
